@@ -6,6 +6,47 @@ import D2V.Model.Bundle
 -/
 namespace D2V.Bundle
 
+/-! ### what the proofs need about the literals extracted from the source under test (tie R) -/
+
+/-- the regexp's literal prefix starts with `<` (so every pattern does) -/
+theorem gen_K : K = lt :: K' := by decide
+/-- the replacement's format string starts with the regexp prefix followed by the skipped prefix `data:` -/
+theorem gen_fmtHead : Gen.Bundle.fmtHead = K ++ dataPfx := by decide
+/-- … and ends with the closing quote -/
+theorem gen_fmtTail : Gen.Bundle.fmtTail = [qt] := by decide
+/-- the collector replaces all occurrences -/
+theorem gen_replaceAll : Gen.Bundle.replaceN < 0 := by decide
+/-- failing workers report the href, successful ones hand over the whole match and the worker's output -/
+theorem gen_reported : Gen.Bundle.reported = "string(img[1])" := by decide
+theorem gen_handed : Gen.Bundle.handed = "repl{ from: img[0], to: bundledImage, }" := by decide
+theorem gen_b64 : Gen.Bundle.b64Encoding = "base64.StdEncoding" := by decide
+theorem gen_xmlN : Gen.Bundle.xmlN = 1 := by decide
+/-- no quote inside `data:` and no `<` in the pieces of the format string -/
+theorem gen_pieces : qt ∉ dataPfx ∧ lt ∉ dataPfx ∧ lt ∉ b64Mark ∧ lt ∉ K' := by decide
+
+theorem replImpl_eq (frm to s : Bytes) : replImpl frm to s = replGo frm to 0 s := by
+  unfold replImpl; simp [gen_replaceAll]
+
+theorem escByte_no_lt (c : UInt8) : lt ∉ escByte c := by
+  unfold escByte
+  split; · decide
+  split; · decide
+  split; · decide
+  split; · decide
+  split; · decide
+  rename_i h _ _
+  simp only [List.mem_singleton]
+  exact fun e => h e.symm
+
+theorem htmlEscape_no_lt (m : Bytes) : lt ∉ htmlEscape m := by
+  induction m with
+  | nil => simp [htmlEscape]
+  | cons c r ih => simp only [htmlEscape, List.mem_append, not_or]; exact ⟨escByte_no_lt c, ih⟩
+
+/-- when the source under test escapes the MIME type, `mimeClean` holds for every server answer -/
+theorem mimeOut_clean (h : Gen.Bundle.mimeEscaped = true) (m : Bytes) : lt ∉ mimeOut m := by
+  unfold mimeOut; rw [h]; exact htmlEscape_no_lt m
+
 
 theorem isPrefixOf_app_lt (p b x : Bytes) (hp : lt ∉ p) : p.isPrefixOf (b ++ lt :: x) = p.isPrefixOf b := by
   induction p generalizing b with
@@ -83,7 +124,7 @@ structure Img.OK (i : Img) : Prop where
   noq : qt ∉ i.href
   nolt : lt ∉ i.href
   nodata : dataPfx.isPrefixOf i.href = false
-  mimeClean : lt ∉ i.mime
+  mimeClean : lt ∉ mimeOut i.mime
 
 theorem enc6_ne_lt (n : Nat) : enc6 n ≠ lt := by
   unfold enc6 lt
@@ -234,7 +275,7 @@ theorem tagOf_data (m x h : Bytes) (ht : tagOf (K' ++ (dataPfx ++ m) ++ x) = som
   split at ht
   · simp only [Option.some.injEq] at ht
     rw [← ht]
-    simp [dataPfx, spanQ, qt, List.isPrefixOf]
+    simp [dataPfx, Gen.Bundle.skipPrefix, spanQ, qt, List.isPrefixOf]
   · simp at ht
 
 /-- `to_contains_no_from`: once a segment starts with a bundled image, no pending pattern matches it any more
@@ -245,7 +286,7 @@ theorem to_contains_no_from (i j : Img) (x : Bytes) (hj : j.OK) : j.from'.isPref
   | true =>
     exfalso
     have h1 := (from'_prefix_iff j.href _ hj.ne hj.noq).mp hp
-    have : i.to' ++ x = K' ++ (dataPfx ++ (i.mime ++ (b64Mark ++ (b64std i.data ++ [qt])))) ++ x := rfl
+    have : i.to' ++ x = K' ++ (dataPfx ++ (mimeOut i.mime ++ (b64Mark ++ (b64std i.data ++ [qt])))) ++ x := rfl
     rw [this] at h1
     have := tagOf_data _ _ _ h1
     rw [hj.nodata] at this
@@ -391,7 +432,7 @@ theorem PInv_step (svg0 : Bytes) (imgs : List Img) (hu : UniqueHrefs imgs) (s s'
           rcases hj with hj | hj
           · exact inv.delIn j hj
           · subst hj; exact ⟨inv.runIn _ him, hg.1⟩
-        · simp only [inv.svgEq, bundleSeq, List.foldl_append, List.foldl_cons, List.foldl_nil]
+        · simp only [inv.svgEq, bundleSeq, List.foldl_append, List.foldl_cons, List.foldl_nil, replImpl_eq]
         · intro j hj
           rcases inv.cover j hj with h1 | h1 | h1 | h1
           · left; exact h1
